@@ -415,7 +415,7 @@ fn run_race(
         for a in 0..2usize {
             let pauses = scen::thin(&points[a], cx.tier.pick(6, 12));
             for nth in [0u16, 1, 2] {
-                for kind in [EK::Other, EK::PermissionDenied, EK::NotFound] {
+                for kind in [EK::Other, EK::PermissionDenied, EK::NotFound, EK::Connect] {
                     for p in &pauses {
                         runs.push(Inner {
                             sch: Schedule(vec![(a as u8, *p), (1 - a as u8, u16::MAX)]),
